@@ -40,6 +40,8 @@ def norm(v: t.Any) -> t.Any:
         return tuple(norm(x) for x in v)
     if isinstance(v, dict):
         return {k: norm(x) for k, x in v.items()}
+    if isinstance(v, W.Opaque):
+        return '@opaque'
     if isinstance(v, W.Ambig):
         return ('AMBIG', norm(v.payload))
     if isinstance(v, W.ExcValue):
@@ -96,7 +98,8 @@ class Trace:
         self.ends: t.Dict[tuple, tuple] = {}  # (node, idx) -> (pos, oc, t)
         self.cancelled: t.Set[tuple] = set()
         self.events: t.List[tuple] = []     # (pos, kind, node_id, payload, mgr, t)
-        self.saves: t.List[tuple] = []      # (pos, node_id, value)
+        self.saves: t.List[tuple] = []      # (pos, node_id, value)  -- save() ENTERED
+        self.saved_done: t.Dict[str, int] = {}   # node_id -> number of save() calls that completed
         self.defaults: t.List[tuple] = []   # (pos, node, kwargs)
         self.returned_pos: t.Optional[int] = None
         self.cancel_pos: t.Optional[int] = None
@@ -116,6 +119,8 @@ class Trace:
                 self.events.append((pos, e[2], e[3], e[4], e[5], e[6]))
             elif k == 'save':
                 self.saves.append((pos, e[2], e[3]))
+            elif k == 'saved':
+                self.saved_done[e[2]] = self.saved_done.get(e[2], 0) + 1
             elif k == 'default':
                 self.defaults.append((pos, e[2], e[3]))
             elif k == 'returned':
@@ -514,6 +519,8 @@ def m_events(x, ref: t.Optional[RefResult], spec: dict, rid: int = 0, nmgr: int 
         if a != b:
             diff = [k for k in set(a) | set(b) if a.get(k) != b.get(k)]
             out.append(('events-managers-differ', f'the partial manager and the complete one observed different histories for {diff[:3]}'))
+    # the context every hook received is the one of this run (the caller's id, input_kwargs, meta; one object per run)
+    out += [a for a in m_anomalies(x, rid) if a[0] == 'context-mismatch']
     return out
 
 
@@ -545,6 +552,9 @@ def m_saves(x, ref: RefResult, spec: dict, rid: int = 0) -> t.List[V]:
             vals = per.get(node_id, [])
             if len(vals) != 1:
                 out.append(('save-count', f'{n} saved {len(vals)}x'))
+            elif tr.saved_done.get(node_id, 0) < 1:
+                out.append(('save-lost', f'{n}: save() was entered but never completed (cancelled while the store was writing); '
+                                         'the run succeeded without this artifact'))
             elif n in ref.values and 'value' not in ref.silent and norm(vals[0]) != norm(ref.values[n]):
                 out.append(('save-value', f'{n} saved {norm(vals[0])!r}; consumers received {ref.values[n]!r}'))
         for k in per:
